@@ -17,7 +17,7 @@ for d in "$MD"/$PAT; do
   cd "$WT"; git checkout -q -- .
   git apply "$d/patch.diff" 2>/dev/null || { echo "{\"mutant\":\"$name\",\"property\":\"$prop\",\"applies\":false,\"checks\":{}}" >> "$OUT"; continue; }
   results=""
-  for id in $(seq -w 1 19); do
+  for id in ${CHECK_IDS:-$(seq -w 1 19)}; do
     rm -f "$MH"/replays/*.json
     o=$(VERIF_REPO="$WT" "$MH/bin/check" "C$id" quick 2>&1); rc=$?
     sig=$(echo "$o" | grep -m1 'signature=' | sed 's/.*signature=//' | cut -c1-80)
